@@ -411,3 +411,20 @@ CLAIMS["C20"] = {"technique": "Lean 4 proof (element-wise agreement lifts to mir
     "note": "Partial: element agreement searched, not proved. The SAN/IAN URI-host divergence was a genuine defect, repaired by fix: fb75916."}
 
 NOT_APPLICABLE = {}
+
+# the lint-logic layer (rule bodies translated from the source): appended to the claims of the properties it serves
+_BODIES = (" For the certificate lints whose CheckApplies/Execute lie inside the lint-logic fragment (149 today) the rule bodies themselves are "
+           "translated from the Go source on every run (extract/bodies.go -> Generated/Bodies.lean) and the theorems of Props/Bodies.lean are re-decided "
+           "on the regenerated terms; the `bodies` correspondence runs the real methods and the Lean evaluator on the same certificates.")
+for _pid, _tech, _text in [
+        ("C02", " + rule bodies translated from the source into a lint-logic language whose guard analysis is proved sound (no panic, for every certificate)",
+         " translated_rules_never_panic: every translated rule passes a guard analysis (each GetExtFromCert(...).Critical is dominated by the presence test) proved sound for all terms and views."),
+        ("C05", " + translated rule bodies are functions of the parsed view", ""),
+        ("C06", " + severity decided on rule terms translated from the source",
+         " translated_rules_severity: every status written in a translated body respects the prefix (the same known findings excused)."),
+        ("C09", " + translated rule bodies read no signature-derived field", " all_rules_fields_allowed / no_signature_field for the translated rules."),
+        ("C17", " + order independence of every translated rule body (run_similar)",
+         " run_similar: a translated rule's answer depends on list fields only through nil-ness, length and the set of elements."),
+        ("C20", " + twin theorems on rule terms translated from the source",
+         " twin_agrees with dsa_twins / san_ian_twins: the Mozilla/BR DSA prohibitions and three SAN/IAN pairs are the same term up to renaming, so they agree on every certificate whose mirrored fields carry the same content.")]:
+    CLAIMS[_pid] = dict(CLAIMS[_pid], technique=CLAIMS[_pid]["technique"] + _tech, text=CLAIMS[_pid]["text"] + _text + _BODIES)
